@@ -612,8 +612,14 @@ func bankRules() {
 			if !cc.e.r.v.moduleAccounts()[name] {
 				cc.e.panicIf("true", "bank: module account "+name+" does not exist (not in maccPerms)", cc.ins)
 			}
+		} else if name, ok := cc.e.g().litOf(cc.arg(i)); ok {
+			if !cc.e.r.v.moduleAccounts()[name] {
+				cc.e.panicIf("true", "bank: module account "+name+" does not exist (not in maccPerms)", cc.ins)
+			}
 		} else {
-			cc.e.r.errorf("bank call with non-constant module name in %s", cc.e.fn.Name())
+			// module name is a parameter: existence of its account is an uninterpreted fact about the name
+			cc.e.g().DeclFun("moduleExists", []string{sortStr}, "Bool")
+			cc.e.panicIf(fmt.Sprintf("(not (moduleExists %s))", cc.arg(i)), "bank: module account of a non-constant module name does not exist", cc.ins)
 		}
 		return fmt.Sprintf("(moduleAddr %s)", cc.arg(i))
 	}
